@@ -79,7 +79,7 @@ def run(ctx):
     env = {"VERIF_TIER": ctx.tier}
     # texture lists (3DS containers, TPL) x placements (CTPK + BCH + CGFX, TPL)
     # (the lists with a 64 KiB payload - quick 1 + 1, thorough 3 + 1 - get the first and every 8th placement)
-    l3, lt = ctx.pick((14, 10), (26, 17))
+    l3, lt = ctx.pick((14, 11), (26, 18))
     p3, pt = ctx.pick((9, 3), (104, 18))
     n_cases = ctx.pick((l3 - 1) * p3 + 3 + (lt - 1) * pt + 1, (l3 - 3) * p3 + 3 * 14 + (lt - 1) * pt + 3)
     # 1. laws on the model
@@ -101,6 +101,9 @@ def run(ctx):
             raise vlib.ToolError("%s: no texture with width x height >= 65536" % cont)
     if not any(c["pad_bad"] > 0 for c in cases if c["c"] == "tpl"):
         raise vlib.ToolError("tpl: no palette image whose padding texels hold an invalid palette index")
+    classes = {(bool(a[0]), bool(a[1])) for c in cases if c["c"] == "tpl" for a in c["align"]}
+    if len(classes) != 4:
+        raise vlib.ToolError("tpl: block-alignment classes (width aligned, height aligned) covered: %s" % sorted(classes))
     if not any(c["p"]["tail"] > 0 for c in cases) or not any(c["p"]["junk"] > 0 for c in cases):
         raise vlib.ToolError("no placement with trailing bytes / junk in reserved fields")
     ctx.extra["tpl_files_with_invalid_indices_in_padding_texels"] = sum(1 for c in cases if c["pad_bad"] > 0)
